@@ -13,6 +13,7 @@ extern crate rustc_hir;
 extern crate rustc_interface;
 extern crate rustc_middle;
 extern crate rustc_span;
+extern crate rustc_type_ir;
 
 use std::collections::HashMap;
 use std::fmt::Write as _;
@@ -27,7 +28,10 @@ use rustc_middle::mir::{
 };
 use rustc_middle::ty::print::{with_no_trimmed_paths, PrintTraitRefExt};
 use rustc_middle::ty::{self, Instance, Ty, TyCtxt, TypingEnv};
+use rustc_middle::traits::ImplSource;
+use rustc_middle::ty::TypeVisitableExt;
 use rustc_span::{ExpnKind, Span};
+use std::collections::{BTreeSet, HashSet};
 
 // ---------------------------------------------------------------- JSON helper
 
@@ -308,6 +312,32 @@ impl<'tcx> Ex<'tcx> {
             }
             return format!("{{\"c\":\"unk\",\"t\":{}{}}}", t, extra);
         }
+        // length of slice-typed constants (e.g. bitflags' FLAGS table)
+        if let ty::Ref(_, inner, _) = cty.kind() {
+            if matches!(inner.kind(), ty::Slice(_) | ty::Str) {
+                match c.const_.eval(tcx, env, c.span) {
+                    Ok(ConstValue::Slice { meta, .. }) => {
+                        let _ = write!(extra, ",\"len\":{}", meta);
+                    }
+                    Ok(ConstValue::Indirect { alloc_id, offset }) => {
+                        // fat pointer stored in memory: (ptr, len); read the length word
+                        if let rustc_middle::mir::interpret::GlobalAlloc::Memory(alloc) = tcx.global_alloc(alloc_id) {
+                            let a = alloc.inner();
+                            let off = offset.bytes() as usize + 8;
+                            if off + 8 <= a.len() {
+                                let bytes = a.inspect_with_uninit_and_ptr_outside_interpreter(off..off + 8);
+                                let mut v: u64 = 0;
+                                for (i, b) in bytes.iter().enumerate() {
+                                    v |= (*b as u64) << (8 * i);
+                                }
+                                let _ = write!(extra, ",\"len\":{}", v);
+                            }
+                        }
+                    }
+                    _ => {}
+                }
+            }
+        }
         // byte string / str literal
         if let Const::Val(ConstValue::Slice { alloc_id, meta }, _) = c.const_ {
             if let rustc_middle::mir::interpret::GlobalAlloc::Memory(alloc) = tcx.global_alloc(alloc_id) {
@@ -413,8 +443,15 @@ impl<'tcx> Ex<'tcx> {
             };
             impl_of = format!("{{\"self\":{},\"trait\":{}}}", st, tr);
         }
+        let may_call = if !resolved_def.is_local() && !self.is_workspace(resolved_def) {
+            let v: Vec<String> = self.ext_closure(resolved_def, resolved_args, env).into_iter().map(|x| esc(&x)).collect();
+            jlist(&v)
+        } else {
+            "[]".to_string()
+        };
         format!(
-            "{{\"id\":{},\"def\":{},\"full\":{},\"orig\":{},\"resolved\":{},\"trait_item\":{},\"trait\":{},\"targs\":{},\"crate\":{},\"name\":{},\"local\":{},\"impl\":{}}}",
+            "{{\"may_call\":{},\"id\":{},\"def\":{},\"full\":{},\"orig\":{},\"resolved\":{},\"trait_item\":{},\"trait\":{},\"targs\":{},\"crate\":{},\"name\":{},\"local\":{},\"impl\":{}}}",
+            may_call,
             esc(&self.id(resolved_def)),
             name,
             full,
@@ -428,6 +465,104 @@ impl<'tcx> Ex<'tcx> {
             resolved_def.is_local(),
             impl_of
         )
+    }
+
+    fn is_workspace(&self, d: DefId) -> bool {
+        if d.is_local() {
+            return true;
+        }
+        let n = self.tcx.crate_name(d.krate);
+        let n = n.as_str();
+        n == "simple_dns" || n == "simple_mdns" || n.starts_with("fx_")
+    }
+
+    /// Workspace trait-impl methods an external generic item may invoke, derived from its
+    /// (elaborated, instantiated) where-clauses, transitively through external impls.
+    fn ext_closure(&mut self, def: DefId, args: ty::GenericArgsRef<'tcx>, env: TypingEnv<'tcx>) -> BTreeSet<String> {
+        let tcx = self.tcx;
+        let mut out = BTreeSet::new();
+        let mut visited: HashSet<(DefId, ty::GenericArgsRef<'tcx>)> = HashSet::new();
+        let mut seen_tr: HashSet<ty::TraitRef<'tcx>> = HashSet::new();
+        let mut work: Vec<(DefId, ty::GenericArgsRef<'tcx>, usize)> = vec![(def, args, 0)];
+        while let Some((d, a, depth)) = work.pop() {
+            if depth > 6 || !visited.insert((d, a)) {
+                continue;
+            }
+            if a.has_non_region_param() || a.has_infer() {
+                // still generic in the caller: handled by the class-hierarchy fallback
+            }
+            let preds = tcx.predicates_of(d).instantiate(tcx, a);
+            let clauses: Vec<ty::Clause<'tcx>> = preds.predicates.iter().map(|c| c.skip_norm_wip()).collect();
+            for clause in rustc_type_ir::elaborate::elaborate(tcx, clauses) {
+                let Some(tp) = clause.as_trait_clause() else { continue };
+                let Some(tp) = tp.no_bound_vars() else { continue };
+                let tr = tp.trait_ref;
+                let tr = match tcx.try_normalize_erasing_regions(env, rustc_middle::ty::Unnormalized::new_wip(tr)) {
+                    Ok(t) => t,
+                    Err(_) => continue,
+                };
+                self.select_tr(tr, env, &mut out, &mut work, &mut seen_tr, depth);
+            }
+        }
+        out
+    }
+
+    fn select_tr(
+        &mut self,
+        tr: ty::TraitRef<'tcx>,
+        env: TypingEnv<'tcx>,
+        out: &mut BTreeSet<String>,
+        work: &mut Vec<(DefId, ty::GenericArgsRef<'tcx>, usize)>,
+        seen: &mut HashSet<ty::TraitRef<'tcx>>,
+        depth: usize,
+    ) {
+        let tcx = self.tcx;
+        if tr.has_non_region_param() || tr.has_infer() || tr.has_aliases() {
+            return;
+        }
+        if !seen.insert(tr) {
+            return;
+        }
+        let fns: Vec<DefId> = tcx
+            .associated_items(tr.def_id)
+            .in_definition_order()
+            .filter(|i| matches!(i.kind, ty::AssocKind::Fn { .. }))
+            .map(|i| i.def_id)
+            .collect();
+        if fns.is_empty() {
+            return;
+        }
+        match tcx.codegen_select_candidate(env.as_query_input(tr)) {
+            Ok(ImplSource::UserDefined(data)) => {
+                let impl_id = data.impl_def_id;
+                if self.is_workspace(impl_id) {
+                    let map = tcx.impl_item_implementor_ids(impl_id);
+                    for f in fns {
+                        let target = map.get(&f).copied().unwrap_or(f);
+                        out.insert(self.id(target));
+                    }
+                } else {
+                    work.push((impl_id, data.args, depth + 1));
+                }
+            }
+            Ok(ImplSource::Builtin(..)) => {
+                // structural impls (tuples, arrays, slices, closures' upvars): same trait on components
+                let self_ty = tr.self_ty();
+                let comps: Vec<Ty<'tcx>> = match self_ty.kind() {
+                    ty::Tuple(ts) => ts.iter().collect(),
+                    ty::Array(t, _) | ty::Slice(t) => vec![*t],
+                    ty::Closure(_, cargs) => cargs.as_closure().upvar_tys().iter().collect(),
+                    _ => vec![],
+                };
+                for c in comps {
+                    let mut new_args: Vec<ty::GenericArg<'tcx>> = vec![c.into()];
+                    new_args.extend(tr.args.iter().skip(1));
+                    let ntr = ty::TraitRef::new(tcx, tr.def_id, new_args);
+                    self.select_tr(ntr, env, out, work, seen, depth);
+                }
+            }
+            _ => {}
+        }
     }
 
     fn operand(&mut self, body: &Body<'tcx>, op: &Operand<'tcx>, env: TypingEnv<'tcx>) -> String {
